@@ -94,9 +94,12 @@ def ref_parse(s):
     route = None
     if "@" in s:
         s, route = s.split("@", 1)
-        # route: decimal station, 0x.. octets or ip[:port] (no X'..' form, no mask)
+        # route: decimal station, 0x.. octets or ip[:port] (no X'..' form, no mask); the documented route notation
+        # only exists for bases written as decimal, 0x.., ip or '*' (not for X'..' stations)
         if _XHEX.match(route) or "/" in route:
             raise Invalid("route form")
+        if "X'" in s:
+            raise Invalid("route on X'' station")
         ref_station(route)
     if s == "*":
         return {"type": LB, "net": None, "octets": None, "ip": None}
@@ -159,7 +162,13 @@ def check_roundtrip(run, a, wit):
         run.violation("printed-form-not-parseable/" + type(err).__name__, dict(wit, error=repr(err)[:100]))
         return
     run.count("print_parse_roundtrips")
-    if not (b == a) or not (a == b) or (a != b) or hash(a) != hash(b) or denotes(a) != denotes(b):
+    try:
+        ha, hb = hash(a), hash(b)
+        {a: 1}
+    except Exception as err:
+        run.violation("address-not-hashable/" + type(err).__name__, dict(wit, error=repr(err)[:100]))
+        return
+    if not (b == a) or not (a == b) or (a != b) or ha != hb or denotes(a) != denotes(b):
         run.violation("print-parse-roundtrip-differs", dict(wit, printed=s, reparsed=repr(denotes(b))))
 
 
@@ -212,8 +221,14 @@ def check_pools(run, pools):
             except Exception as err:
                 run.violation("equivalent-spelling-refused/" + type(err).__name__, {"spec": repr(spec), "error": repr(err)[:100]})
     table = {}
+    hashable = []
     for pi, spec, a in objs:
-        table.setdefault(a, pi)
+        try:
+            table.setdefault(a, pi)
+            hashable.append((pi, spec, a))
+        except Exception as err:
+            run.violation("address-not-hashable/" + type(err).__name__, {"spec": repr(spec), "error": repr(err)[:100]})
+    objs = hashable
     for (pa, sa, a), (pb, sb, b) in itertools.product(objs, repeat=2):
         run.count("pairs_compared")
         eq, ne = (a == b), (a != b)
@@ -351,8 +366,9 @@ def main():
     for ln in range(1, 8):
         for _ in range(200 if thorough else 40):
             o = bytes(rng.getrandbits(8) for _ in range(ln))
-            if rng.random() < 0.2 and ln == 6:
-                o = o[:4] + struct.pack(">H", rng.choice([47808, 47809, 47823, 47824, 47807]))
+            if rng.random() < 0.35 and ln >= 2:
+                # a tail that looks like a BACnet/IP port (the printer treats 6-octet addresses with such a tail as IPv4)
+                o = o[:ln - 2] + struct.pack(">H", rng.choice([47808, 47809, 47813, 47823, 47824, 47807]))
             for spec, (t, net) in ((("b", o), (LS, None)), (("s", "0x" + o.hex()), (LS, None)), (("s", "X'%s'" % o.hex().upper()), (LS, None)),
                                    (("s", "300:0x" + o.hex()), (RS, 300)), (("LS", o), (LS, None)), (("RS", 2, o), (RS, 2)), (("2", 5, o), (RS, 5))):
                 run.case(repr(spec))
